@@ -190,6 +190,9 @@ class Ctx:
         for t in theorems:
             text += 'Goal True. idtac "@@ %s". exact I. Qed.\nPrint Assumptions %s.\n' % (t, t)
         out, ok = self.coqc("assumptions", text, timeout=300)
+        if not ok:      # a concurrent rebuild (another check regenerating Gen/ for another tree) can leave .vo files inconsistent
+            with BuildLock():
+                out, ok = self.coqc("assumptions", text, timeout=300)
         if not ok:
             self.broken.append(("assumptions:" + prop_module, out[-400:]))
             return
@@ -216,6 +219,12 @@ class Ctx:
         if names:
             text2 = "From PR Require Import %s.\n" % prop_module + "".join("Locate %s.\n" % a for a in names)
             out2, ok2 = self.coqc("assumptions_locate", text2, timeout=300)
+            if not ok2:
+                with BuildLock():
+                    out2, ok2 = self.coqc("assumptions_locate", text2, timeout=300)
+            if not ok2:     # never blame the axioms for a failed lookup
+                self.broken.append(("assumptions:" + prop_module, "Locate of the reported assumptions failed: " + out2[-300:]))
+                return
             paths = re.findall(r"^(?:Constant|Inductive|Axiom)\s+(\S+)", out2, re.M)
             full = {}
             for a in names:
